@@ -298,7 +298,7 @@ def tie_problem(c):
     if M[0] == 'err' and M[1] == 'unsupportedDirective':
         return None
     if C[0] == 'crash':
-        return None if (M[0] == 'err' and M[1] == 'nullDeref') else f'chibicc crashed, model says {M[:2]}'
+        return f'chibicc crashed (no diagnostic, non-zero exit), model says {M[:2]}'
     if C[0] == 'err':
         if M[0] != 'err':
             return f'chibicc reports {C[1]}, model expands without error'
@@ -364,7 +364,7 @@ def oracle_verdict(c):
     if cf is None and gf is None:
         return 'both-reject'
     # undefined behaviour: a ## whose result is not a valid preprocessing token (6.10.3.3p3), judged by the oracle side
-    if (S[0] == 'err' and S[1] in ('pasteInvalid', 'lexError', 'nullDeref')) or (G[0] == 'err' and 'valid preprocessing token' in G[1]):
+    if (S[0] == 'err' and S[1] in ('pasteInvalid', 'lexError')) or (G[0] == 'err' and 'valid preprocessing token' in G[1]):
         return ('skipped_ub', 'a ## does not give a valid preprocessing token')
     if gf is None:
         return ('inconclusive', 'gcc rejects the input, chibicc accepts it (constraint violation diagnosed late or not at all: not C09): ' + G[1])
